@@ -1,5 +1,5 @@
 (* C09 — a run's results depend only on its inputs, not on leftovers of earlier runs; no intermediate
-   file remains.  Statements only; proofs are in Proofs/FsP.v.
+   file remains.  Statements only; proofs are in Proofs/FsP.v and Proofs/FsValP.v.
 
    A directory is any association list of file names and contents ([fs]); nothing is assumed about how
    it came about, so every state an earlier run can leave behind — completed, failed, killed between
@@ -119,6 +119,86 @@ Theorem C09_results_are_C03 : forall g cl s, run_ok g -> (0 < fg_c g)%nat -> fg_
 Proof. exact run_single_results. Qed.
 Print Assumptions C09_results_are_C03.
 
+(* ---- the refinement with the protein level ----
+   The picked-protein step is an oracle (C15 covers the computation): a collection carries the value recorded for it,
+   [fc_prot cl = Some (ids, prows)] — the PSM ids of the peptide-level file the step read, and the rows it wrote to the
+   protein-level file <file_root>proteins = [NLevel (fg_nlevels g) (fg_ext g)].  The model uses the recorded rows only if
+   the peptide-level file THIS run has just written has exactly these PSM ids; otherwise the step raises.
+   [prot_key_ok g cl] is that condition: *)
+Theorem C09_oracle_key : forall g cl, prot_key_ok g cl = true <->
+  (fg_proteins g = true -> forall ids prows, fc_prot cl = Some (ids, prows) -> ids = coll_pep_ids g cl).
+Proof. exact prot_key_ok_iff. Qed.
+Print Assumptions C09_oracle_key.
+
+(* [run_effect_p]: as [run_effect], for [fs_nres g] levels (the rollup levels, plus the protein level when requested): per
+   collection the chunk files and ALL level files — the protein-level file included — are absent, every result file
+   holds (after what it held before, for the later ones of several un-prefixed collections) the target resp. decoy rows
+   of its level with their q-values, the rows of the protein level being the oracle's; every other file is as it was.
+   Executing the run operation by operation on ANY directory ends in that directory if every recorded oracle value
+   belongs to this run, and fails (at the picked-protein step) otherwise *)
+Theorem C09_run_refines_effect_proteins : forall g s, run_okp g -> (0 < fg_c g)%nat ->
+  if forallb (prot_key_ok g) (fg_colls g)
+  then exists s', fs_run g None s = Some s' /\
+         forall n, fs_get ccontent s' n = run_effect_p g false (fg_colls g) (fs_get ccontent s) n
+  else fs_run g None s = None.
+Proof. exact run_exec_p. Qed.
+Print Assumptions C09_run_refines_effect_proteins.
+
+Theorem C09_run_refines_effect_proteins_ok : forall g s, run_okp g -> (0 < fg_c g)%nat ->
+  (forall cl, In cl (fg_colls g) -> prot_key_ok g cl = true) ->
+  exists s', fs_run g None s = Some s' /\
+    forall n, fs_get ccontent s' n = run_effect_p g false (fg_colls g) (fs_get ccontent s) n.
+Proof. exact run_exec_keys. Qed.
+Print Assumptions C09_run_refines_effect_proteins_ok.
+
+Theorem C09_oracle_key_mismatch_fails : forall g s cl, run_okp g -> (0 < fg_c g)%nat ->
+  In cl (fg_colls g) -> prot_key_ok g cl = false -> fs_run g None s = None.
+Proof. exact run_key_mismatch. Qed.
+Print Assumptions C09_oracle_key_mismatch_fails.
+
+(* without protein level the two effects are the same function: C09_run_refines_effect is the instance
+   [fg_proteins g = false] of C09_run_refines_effect_proteins *)
+Theorem C09_effect_without_proteins : forall g, fg_proteins g = false ->
+  forall cls seen v n, run_effect_p g seen cls v n = run_effect g seen cls v n.
+Proof. exact run_effect_p_noprot. Qed.
+Print Assumptions C09_effect_without_proteins.
+
+(* one collection with protein level, from any directory: the protein-level result files hold exactly the rows the oracle
+   returned for this run's peptide level, targets and decoys apart, each row with its q-value
+   ([side d rows] = the rows of [combine rows (cf_qvalues rows)] whose target flag is [negb d]); the protein-level file
+   is gone; the result files of the other levels are the outputs of the C03 model, as without proteins *)
+Theorem C09_protein_results : forall g cl ids prows s, run_okp g -> (0 < fg_c g)%nat -> fg_colls g = [cl] ->
+  fg_proteins g = true -> fc_prot cl = Some (ids, prows) -> ids = coll_pep_ids g cl ->
+  exists s', fs_run g None s = Some s' /\
+    fs_get ccontent s' (NResult (fc_pfx cl) false (fg_nlevels g)) = Some (side false prows) /\
+    (fg_decoys g = true -> fs_get ccontent s' (NResult (fc_pfx cl) true (fg_nlevels g)) = Some (side true prows)) /\
+    fs_get ccontent s' (NLevel (fg_nlevels g) (fg_ext g)) = None /\
+    forall lv, (lv < fg_nlevels g)%nat ->
+      fs_get ccontent s' (NResult (fc_pfx cl) false lv)
+        = Some (fst (nth lv (cf_confidence (fg_c g) (fg_dedup g) (fg_nlevels g) (fc_rows cl)) ([], []))) /\
+      (fg_decoys g = true ->
+       fs_get ccontent s' (NResult (fc_pfx cl) true lv)
+        = Some (snd (nth lv (cf_confidence (fg_c g) (fg_dedup g) (fg_nlevels g) (fc_rows cl)) ([], [])))).
+Proof. exact run_single_results_p. Qed.
+Print Assumptions C09_protein_results.
+
+(* the run with protein level and the same run without it ([fs_noprot g]: the same configuration, proteins off), started
+   in the same arbitrary directory, end in directories that differ at most in the protein-level file and the
+   protein-level result files ([prot_name]): the PSM, peptide and other rollup-level result files are identical, for any
+   number of collections and any prefix layout *)
+Theorem C09_proteins_do_not_change_other_levels : forall g s, run_okp g -> (0 < fg_c g)%nat ->
+  (forall cl, In cl (fg_colls g) -> prot_key_ok g cl = true) ->
+  exists s' s0, fs_run g None s = Some s' /\ fs_run (fs_noprot g) None s = Some s0 /\
+    forall n, prot_name g n = false -> fs_get ccontent s' n = fs_get ccontent s0 n.
+Proof. exact run_proteins_other_files. Qed.
+Print Assumptions C09_proteins_do_not_change_other_levels.
+
+(* with or without protein level the run only ever names its own chunk, level and result files *)
+Theorem C09_touches_own_files_proteins : forall g, fg_glob g = false ->
+  forallb run_file (touched cfn (fs_run_ops g)) = true.
+Proof. exact run_touches_own_files_g. Qed.
+Print Assumptions C09_touches_own_files_proteins.
+
 (* the appends to the file of level j happen batch 0, 1, 2, ... in order, the last one being the final flush —
    however the batches of different levels interleave *)
 Theorem C09_level_appends_in_order : forall c, (0 < c)%nat -> forall dedup nl stream j, (j < nl)%nat ->
@@ -227,6 +307,82 @@ Example C09_example_proteins :
       fs_get ccontent a (NLevel 2 false) = None /\ fs_get ccontent a (NLevel 1 false) = None
   | None => False
   end.
+Proof. vm_compute. repeat split. Qed.
+
+(* the refinement with protein level on a non-trivial configuration: three collections (two share the un-prefixed result
+   files, one has its own), each with its recorded oracle value, started in a directory that holds leftovers under the very
+   names the run uses — a stale protein-level file and stale protein-level result files among them *)
+Definition ex_rows2 : list cf_row :=
+  [ {| cf_id := 11; cf_spec := 1; cf_keys := [7]; cf_target := false; cf_score := 8 |};
+    {| cf_id := 12; cf_spec := 2; cf_keys := [8]; cf_target := true;  cf_score := 6 |};
+    {| cf_id := 13; cf_spec := 3; cf_keys := [8]; cf_target := true;  cf_score := 6 |};
+    {| cf_id := 14; cf_spec := 4; cf_keys := [9]; cf_target := true;  cf_score := 1 |} ].
+Definition ex_prot_rows2 : list cf_row :=
+  [ {| cf_id := 911; cf_spec := 0; cf_keys := []; cf_target := true;  cf_score := 8 |};
+    {| cf_id := 912; cf_spec := 0; cf_keys := []; cf_target := false; cf_score := 6 |};
+    {| cf_id := 913; cf_spec := 0; cf_keys := []; cf_target := true;  cf_score := 3 |} ].
+Definition ex_cfg_prot3 : fs_cfg :=
+  {| fg_ext := false; fg_c := 2; fg_dedup := true; fg_nlevels := 2; fg_decoys := true; fg_append := false;
+     fg_glob := false; fg_proteins := true;
+     fg_colls := [ {| fc_pfx := 0; fc_rows := ex_rows;  fc_prot := Some ([1; 4], ex_prot_rows) |};
+                   {| fc_pfx := 0; fc_rows := ex_rows2; fc_prot := Some ([11; 12; 14], ex_prot_rows2) |};
+                   {| fc_pfx := 3; fc_rows := ex_rows;  fc_prot := Some ([1; 4], ex_prot_rows) |} ] |}.
+Definition ex_dirty_prot : cfs :=
+  ex_dirty ++ [ (NLevel 2 false, fs_plain ex_rows); (NResult 0 false 2, fs_plain ex_rows); (NResult 3 true 2, fs_plain ex_rows2);
+                (NLevel 2 true, fs_plain ex_rows); (NResult 0 false 3, fs_plain ex_rows) ].
+
+Example C09_run_okp_proteins3_satisfiable :
+  run_okp ex_cfg_prot3 /\ (0 < fg_c ex_cfg_prot3)%nat /\
+  (forall cl, In cl (fg_colls ex_cfg_prot3) -> prot_key_ok ex_cfg_prot3 cl = true).
+Proof.
+  split; [|split].
+  - split; [reflexivity|]. split; [reflexivity|].
+    intros cl [<-|[<-|[<-|[]]]] _; (split; [cbn; auto with arith | discriminate]).
+  - cbn; auto with arith.
+  - intros cl [<-|[<-|[<-|[]]]]; vm_compute; reflexivity.
+Qed.
+
+(* what [fs_run] computes on the dirty directory is the right-hand side of C09_run_refines_effect_proteins, on every name
+   the run's operations mention, every result name and every name present before *)
+Definition ex_names_prot : list fname :=
+  fs_result_names ex_cfg_prot3 ++ map snd (fs_run_trace ex_cfg_prot3) ++ map fst ex_dirty_prot.
+Example C09_example_effect_proteins :
+  match fs_run ex_cfg_prot3 None ex_dirty_prot with
+  | Some a =>
+      map (fs_get ccontent a) ex_names_prot
+        = map (run_effect_p ex_cfg_prot3 false (fg_colls ex_cfg_prot3) (fs_get ccontent ex_dirty_prot)) ex_names_prot /\
+      (* the un-prefixed protein-level files: the oracle rows of collection 1, then those of collection 2, with q-values *)
+      map (fun c => map (fun r => (cf_id (fst r), snd r)) c) (match fs_get ccontent a (NResult 0 false 2) with Some c => [c] | None => [] end)
+        = [[(901, 1 # 1); (911, 1 # 1); (913, 2 # 2)]] /\
+      map (fun c => map (fun r => cf_id (fst r)) c) (match fs_get ccontent a (NResult 0 true 2) with Some c => [c] | None => [] end)
+        = [[902; 912]] /\
+      map (fun c => map (fun r => cf_id (fst r)) c) (match fs_get ccontent a (NResult 3 true 2) with Some c => [c] | None => [] end)
+        = [[902]] /\
+      fs_get ccontent a (NLevel 2 false) = None /\
+      (* not the run's: the Parquet-named level file, a result file of a level the run does not have *)
+      fs_get ccontent a (NLevel 2 true) = Some (fs_plain ex_rows) /\ fs_get ccontent a (NResult 0 false 3) = Some (fs_plain ex_rows)
+  | None => False
+  end.
+Proof. vm_compute. repeat split. Qed.
+
+(* the same run without protein level leaves the same files except the protein-level ones *)
+Example C09_example_proteins_other_levels :
+  match fs_run ex_cfg_prot3 None ex_dirty_prot, fs_run (fs_noprot ex_cfg_prot3) None ex_dirty_prot with
+  | Some a, Some b =>
+      let names := filter (fun n => negb (prot_name ex_cfg_prot3 n)) ex_names_prot in
+      map (fs_get ccontent a) names = map (fs_get ccontent b) names /\ (8 <? length names)%nat = true
+  | _, _ => False
+  end.
+Proof. vm_compute. split; reflexivity. Qed.
+
+(* an oracle value recorded for another peptide level (ids 1, 3 instead of 1, 4): the picked-protein step raises *)
+Definition ex_cfg_prot_badkey : fs_cfg :=
+  {| fg_ext := false; fg_c := 2; fg_dedup := true; fg_nlevels := 2; fg_decoys := true; fg_append := false;
+     fg_glob := false; fg_proteins := true;
+     fg_colls := [ {| fc_pfx := 0; fc_rows := ex_rows; fc_prot := Some ([1; 3], ex_prot_rows) |} ] |}.
+Example C09_example_key_mismatch :
+  forallb (prot_key_ok ex_cfg_prot_badkey) (fg_colls ex_cfg_prot_badkey) = false /\
+  fs_run ex_cfg_prot_badkey None ex_dirty_prot = None /\ fs_run ex_cfg_prot_badkey None [] = None.
 Proof. vm_compute. repeat split. Qed.
 
 (* a kill after 9 operations of the same run leaves chunk files and a half-written level file *)
